@@ -81,7 +81,7 @@ RotLaws(p, n) ==
     /\ Rotl(x, n) = RotlStd(x, n) /\ Rotr(x, n) = RotrStd(x, n)
     /\ Rotl(x, n) = Rotl(x, n + 8) /\ Rotl(x, 0 - n) = Rotr(x, n)
     /\ Popcount(Rotl(x, n)) = Popcount(x)
-    /\ (n >= 0 => W!NPow2(n) = W!NPow2Def(n) /\ W4!NPow2(n) = W4!NPow2Def(n))
+    /\ (p = 0 /\ n \in 0..64 => W!NPow2(n) = W!NPow2Def(n) /\ W4!NPow2(n) = W4!NPow2Def(n))    \* (independent of p)
     /\ (n \in 0..7 => NatOfBits(Rotl(x, n)) = ((p * 2^n) % 256) + ((p * 2^n) \div 256))
 
 \* ---- laws of the binary functions (every pair, both signednesses) --------------------------------------
@@ -108,8 +108,8 @@ PairLawsS(pa, pb, s) ==
     /\ 2 * m \in {x + y - 1, x + y, x + y + 1}
     /\ IAbs(m - x) <= IAbs(y - m)
     /\ IFits(m, w, s)
-    \* gcd: Euclid = "greatest of the common divisors"; gcd * lcm = |x y|; lcm is a common multiple
-    /\ g = GcdDecl(x, y) /\ g >= 0
+    \* gcd is a common divisor (greatest: PairLawsZ); gcd * lcm = |x y|; lcm is a common multiple
+    /\ g >= 0 /\ (x # 0 => IAbs(x) % g = 0) /\ (y # 0 => IAbs(y) % g = 0) /\ ((g = 0) = (x = 0 /\ y = 0))
     /\ lc.ok /\ g * lc.v = IAbs(x) * IAbs(y)
     /\ (x # 0 /\ y # 0 => lc.v % IAbs(x) = 0 /\ lc.v % IAbs(y) = 0)
     /\ LcmI(x, y, w, s).ok = IFits(lc.v, w, s)
@@ -137,6 +137,7 @@ PairLawsZ(pa, pb, s) ==
     /\ SameZ(W4!AddSatZ(x4, y4, w, s), W!AddSatZ(xz, yz, w, s), AddSatI(x, y, w, s))
     /\ SameZ(W4!SubSatZ(x4, y4, w, s), W!SubSatZ(xz, yz, w, s), SubSatI(x, y, w, s))
     /\ SameZ(W4!MidpointZ(x4, y4), W!MidpointZ(xz, yz), MidpointI(x, y))
+    /\ GcdI(x, y) = GcdDecl(x, y)                                   \* Euclid = "greatest of the common divisors"
     /\ SameZ(W4!GcdZ(x4, y4), W!GcdZ(xz, yz), GcdI(x, y))
     /\ W4!NGcdEuclid(x4.m, y4.m) = W4!NGcd(x4.m, y4.m) /\ W!NGcdEuclid(xz.m, yz.m) = W!NGcd(xz.m, yz.m)
     /\ SameZ(W4!LcmZ(x4, y4), W!LcmZ(xz, yz), lc.v)
